@@ -1105,6 +1105,7 @@ class Frame(registering.StoriedRegistrar):
         """
         over = self.over
         under = self
+        climbed = []  # frames already climbed through to detect loops not including self
 
         while over: #not beyond top
             if not isinstance(over, Frame): #over is name of frame not ref so resolve
@@ -1131,6 +1132,10 @@ class Frame(registering.StoriedRegistrar):
             else: #over is valid frame reference so don't need to resolve
                 if over == self: #check for loop
                     raise excepting.ResolveError("Outline overs create loop", self.name, under.name)
+
+            if over in climbed: #loop among overs above self
+                raise excepting.ResolveError("Outline overs create loop", self.name, over.name)
+            climbed.append(over)
 
             under = over
             over = over.over #rise one level
